@@ -19,6 +19,7 @@ from ..universe import iter_G, unit_options, fam_staircase, fam_interleaved, fam
 ID = "C10"
 TASK_TIMEOUT = 1500.0
 HANG_IS_VIOLATION = True
+CRASH_IS_VIOLATION = True
 META = {
     "rule": "case = (continuum, window size, dissimilarity); non-trivial = distinct cases where the window does "
             "not cover the whole continuum and the loop needed >= 2 iterations; outcomes = distinct (fast disorder, "
